@@ -1,13 +1,131 @@
-(** C14 — muxing then demuxing returns exactly what was put in. *)
-From Coq Require Import List ZArith.
-From Webp Require Import Base.Res Base.Bytes Riff.RiffGrammar Riff.DemuxModel Riff.MuxModel Riff.MuxView.
+(** C14 — muxing then demuxing returns exactly what was put in.
+    Models: Riff/MuxModel (mux/mux.go), Riff/DemuxModel (mux/demux.go, chunk.go),
+    Riff/RiffGrammar (container specification), Riff/MuxView (what "put in" means). *)
+From Coq Require Import List ZArith Lia Bool.
+From Webp Require Import Base.Res Base.Bytes Riff.RiffGrammar Riff.DemuxModel Riff.DemuxTotal
+  Riff.MuxModel Riff.MuxView Riff.MuxProofs Riff.MuxRefuted.
 From WebpGen Require Consts.
 Import ListNotations.
 Open Scope Z_scope.
 
+(** FULL STATEMENT (not proved in general, see the _partial theorems; false for the
+    still-canvas class, see C14_current_still_canvas_refuted): for every history of
+    Muxer calls satisfying the hypotheses, Assemble of the current code either
+    returns an error, or bytes that are a well-formed container and demux to the
+    view of what was put in; it never panics. *)
+Definition C14_full_statement : Prop := roundtrip_statement repaired true.
+
+(** Simple layout (single VP8 / VP8L frame, nothing that needs VP8X), any muxer
+    state reached by any history, any variant: the assembled bytes are well formed
+    and demux back to exactly that bitstream, its dimensions, no metadata. *)
+Theorem C14_simple_layout_roundtrip_partial : forall fx dfx data fo m,
+  m_frames m = [mkmf data fo] ->
+  needs_vp8x fx m = false -> validate fx m = Ok tt ->
+  bytes_ok data -> len data < 2147483648 ->
+  frame_parts data = Some (None, data) ->
+  (is_some' (vp8_header data) || is_some' (vp8l_header data)) = true ->
+  exists bs, assemble fx m = Ok bs /\ wf bs = true /\
+    match parse dfx bs with
+    | Ok d =>
+      (exists ha, d_frames d = [mkfi (Some data) None (fst (frame_dims data)) (snd (frame_dims data)) 0 0 0 true ha 0 0]) /\
+      d_icc d = None /\ d_exif d = None /\ d_xmp d = None /\ d_loop d = 0 /\ d_bg d = 0 /\
+      ft_anim (d_feat d) = false /\ (ft_w (d_feat d), ft_h (d_feat d)) = frame_dims data
+    | _ => False
+    end.
+Proof. exact simple_layout_roundtrip. Qed.
+Print Assumptions C14_simple_layout_roundtrip_partial.
+
+(** Chunk write/read round trip with padding: whatever follows it, a chunk written by
+    writeDataChunk is read back by ReadChunk as (id, size, payload), consuming exactly
+    the bytes written including the padding byte of an odd payload. *)
+Theorem C14_chunk_write_read_roundtrip : forall id p rest,
+  0 <= id < 4294967296 -> len p <= MaxChunkPayload ->
+  read_chunk (write_data_chunk id p ++ rest) = Ok (mkchunk id (len p) p, len (write_data_chunk id p)).
+Proof. exact read_chunk_write. Qed.
+Print Assumptions C14_chunk_write_read_roundtrip.
+
+Theorem C14_chunk_total_size_correct : forall id p, len p < 2147483648 ->
+  len (write_data_chunk id p) = chunk_total (u32 (len p)) /\ len (write_data_chunk id p) mod 2 = 0.
+Proof. intros id p H. split; [apply chunk_total_correct|apply write_data_chunk_even]; exact H. Qed.
+Print Assumptions C14_chunk_total_size_correct.
+
+(** The ANMF chunk written for any frame (any data, with or without ALPH prefix, any
+    options) has exactly the size assembleExtended adds to the RIFF size, and is even. *)
+Theorem C14_anmf_size_correct : forall f, len (f_data f) < 1073741824 ->
+  len (write_anmf f) = frame_riff_size repaired true f /\ len (write_anmf f) mod 2 = 0.
+Proof. exact anmf_size_correct. Qed.
+Print Assumptions C14_anmf_size_correct.
+
+Theorem C14_flags_derivation : forall m,
+  let fl := vp8x_flags m in
+  (negb ((fl / 2) mod 2 =? 0) = is_animated m) /\
+  (negb ((fl / 32) mod 2 =? 0) = is_some (m_icc m)) /\
+  (negb ((fl / 8) mod 2 =? 0) = is_some (m_exif m)) /\
+  (negb ((fl / 4) mod 2 =? 0) = is_some (m_xmp m)) /\
+  (negb ((fl / 16) mod 2 =? 0) = has_alpha m) /\
+  fl mod 2 = 0 /\ fl / 64 = 0.
+Proof. exact flags_derivation. Qed.
+Print Assumptions C14_flags_derivation.
+
+Theorem C14_still_vs_animated_choice : forall m,
+  is_animated m = true <->
+  (1 < len (m_frames m) \/ exists f, In f (m_frames m) /\ 0 < o_dur (f_opts f)).
+Proof. exact still_vs_animated_choice. Qed.
+Print Assumptions C14_still_vs_animated_choice.
+
+Theorem C14_simple_layout_iff : forall fx m,
+  needs_vp8x fx m = false <->
+  (is_animated m = false /\ m_icc m = None /\ m_exif m = None /\ m_xmp m = None /\
+   (fx_alpha fx = true -> has_alpha_chunk m = false)).
+Proof. exact needs_vp8x_iff. Qed.
+Print Assumptions C14_simple_layout_iff.
+
+(** Refutations of the full statement for the PINNED muxer (before bc01570/2c1f6ba);
+    [pinned] and [mkfx _ false] are explicitly the old code and are not run by the
+    correspondence. *)
+Theorem C14_pinned_still_alpha_refuted : forall dfx, ~ roundtrip_statement pinned dfx.
+Proof. exact pinned_still_alpha_refuted. Qed.
+Print Assumptions C14_pinned_still_alpha_refuted.
+
+Theorem C14_pinned_negative_offset_refuted : forall dfx, ~ roundtrip_statement (mkfx true false) dfx.
+Proof. exact pinned_negative_offset_refuted. Qed.
+Print Assumptions C14_pinned_negative_offset_refuted.
+
+Theorem C14_pinned_big_offset_refuted : forall dfx, ~ roundtrip_statement (mkfx true false) dfx.
+Proof. exact pinned_big_offset_refuted. Qed.
+Print Assumptions C14_pinned_big_offset_refuted.
+
+Theorem C14_pinned_still_offset_refuted : forall dfx, ~ roundtrip_statement (mkfx true false) dfx.
+Proof. exact pinned_still_offset_refuted. Qed.
+Print Assumptions C14_pinned_still_offset_refuted.
+
+(** Refutation for the CURRENT muxer: the remaining known finding (still-canvas). *)
+Theorem C14_current_still_canvas_refuted : ~ C14_full_statement.
+Proof. exact (current_still_canvas_refuted true). Qed.
+Print Assumptions C14_current_still_canvas_refuted.
+
+(** The witnesses of the pinned defects are rejected with an error / round-trip in
+    the current model (evaluated in the kernel). *)
+Theorem C14_current_handles_the_pinned_witnesses :
+  assemble repaired (run [AddFrame w_vp8 (opts 10 (-2) 0)]) = Err E_validate /\
+  assemble repaired (run [AddFrame w_vp8 (opts 10 33554432 0)]) = Err E_validate /\
+  assemble repaired (run [AddFrame w_vp8 (opts 10 16777216 0)]) = Err E_validate /\
+  assemble repaired (run [AddFrame w_vp8 (opts 0 2 0); SetEXIF (Some [1])]) = Err E_validate /\
+  roundtrip_holds repaired true [AddFrame w_alph None] = true /\
+  roundtrip_holds repaired true [AddFrame w_alph None; SetEXIF (Some [1; 2; 3])] = true /\
+  roundtrip_holds repaired true
+    [AddFrame w_alph (opts 10 2 4); AddFrame w_vp8 (opts 20 0 0); SetLoopCount 3; SetXMP (Some [])] = true.
+Proof. exact current_handles_the_pinned_witnesses. Qed.
+Print Assumptions C14_current_handles_the_pinned_witnesses.
+
 Theorem C14_limits_match_source :
   WebpGen.Consts.mux_maxDuration = maxDuration /\ WebpGen.Consts.mux_maxLoopCount = maxLoopCount /\
   WebpGen.Consts.container_MaxCanvasSize = MaxCanvasSize /\ WebpGen.Consts.container_MaxFrames = MaxFrames /\
-  WebpGen.Consts.mux_maxMetadataSize = maxMetadataSize /\ WebpGen.Consts.container_MaxImageArea = MaxImageArea.
+  WebpGen.Consts.container_MaxPositionOff = MaxPositionOff /\
+  WebpGen.Consts.mux_maxMetadataSize = maxMetadataSize /\ WebpGen.Consts.container_MaxImageArea = MaxImageArea /\
+  WebpGen.Consts.mux_flagAnimation = 2 /\ WebpGen.Consts.mux_flagXMP = 4 /\ WebpGen.Consts.mux_flagEXIF = 8 /\
+  WebpGen.Consts.mux_flagAlpha = 16 /\ WebpGen.Consts.mux_flagICCP = 32 /\
+  WebpGen.Consts.container_VP8LMagicByte = VP8LMagicByte /\
+  WebpGen.Consts.mux_BlendNone = 1 /\ WebpGen.Consts.mux_DisposeBackground = 1.
 Proof. repeat split; reflexivity. Qed.
 Print Assumptions C14_limits_match_source.
